@@ -111,6 +111,13 @@ impl Recv {
 #[cache(limit = 8)]
 pub fn g_one(a: u32) -> u64 { body1(a) }
 
+// ---- max_memory spellings: GB suffix, plain byte count
+#[cache(limit = 4, max_memory = "1GB")]
+pub fn g_mem_gb(a: u32, b: String) -> u64 { body2(a, b) }
+
+#[cache_async(limit = 4, max_memory = 4096)]
+pub async fn a_mem_bytes(a: u32, b: String) -> u64 { body2(a, b) }
+
 #[cache_async(limit = 8)]
 pub async fn a_one(a: u32) -> u64 { body1(a) }
 
